@@ -1,5 +1,54 @@
+(* C18 — SegmentationBuilder2D only ever produces valid room partitions.
+   Model: Generator/Segmentation.v (tied to cspuz/generator/segmentation.py by
+   harness/pC18.py on every run).  The "never modifies the value it was applied
+   to" half of the property is about Python aliasing; it is TESTED by the
+   harness and is not a theorem here. *)
 From Coq Require Import ZArith List.
-From Cspuz Require Import Lib.PyErr Generator.Segmentation.
-Theorem apply_update_def : forall bs u, apply_update bs u = keep_idx (fst u) bs ++ snd u.
-Proof. reflexivity. Qed.
-Print Assumptions apply_update_def.
+From Cspuz Require Import Lib.PyErr Generator.Segmentation Generator.SegInv Generator.SegExample.
+Import ListNotations.
+
+(* initial() (allow_unmet_constraints_first = False), whatever the draws and
+   however many rounds it needs: if it returns, the value satisfies Inv *)
+Theorem initial_inv : forall cfg ib draws fuel r d',
+  allow_unmet cfg = false ->
+  match ib with
+  | None => (0 < height cfg)%Z /\ (0 < width cfg)%Z
+  | Some b => WInv cfg b
+  end ->
+  initial cfg ib draws fuel = Ok (r, d') -> Inv cfg r.
+Proof. exact initial_Inv. Qed.
+Print Assumptions initial_inv.
+
+(* every update proposed for a valid value leads to a valid value *)
+Theorem step_inv : forall cfg bs ds u,
+  Inv cfg bs -> proposed cfg bs ds u -> Inv cfg (apply_update bs u).
+Proof. exact step_Inv. Qed.
+Print Assumptions step_inv.
+
+(* also outside the bounds (the states initial() walks through): a partition
+   into connected blocks stays one *)
+Theorem step_winv : forall cfg bs ds u,
+  WInv cfg bs -> proposed cfg bs ds u -> WInv cfg (apply_update bs u).
+Proof. exact step_WInv. Qed.
+Print Assumptions step_winv.
+
+(* every value along any finite sequence of proposed updates *)
+Theorem walk_inv : forall cfg steps bs,
+  Inv cfg bs -> valid_walk cfg bs steps -> Forall (Inv cfg) (walk_values bs (map snd steps)).
+Proof. exact walk_Inv. Qed.
+Print Assumptions walk_inv.
+
+(* non-vacuity: 3x3 board, 2..4 blocks of size 1..5; initial() returns ex_b0 and
+   a split, a move and a merge are then proposed in turn *)
+Theorem inv_nonvacuous :
+  (exists rest, initial ex_cfg None ex_draws 10 = Ok (ex_b0, rest)) /\
+  valid_walk ex_cfg ex_b0 ex_steps /\
+  last (walk_values ex_b0 (map snd ex_steps)) [] = ex_final /\
+  Forall (Inv ex_cfg) (walk_values ex_b0 (map snd ex_steps)).
+Proof.
+  split; [exact ex_initial|]. split; [exact ex_walk|]. split; [exact ex_last|].
+  destruct ex_initial as [rest H].
+  apply walk_Inv; [|exact ex_walk].
+  apply (initial_Inv ex_cfg None ex_draws 10 ex_b0 rest); [reflexivity | split; reflexivity | exact H].
+Qed.
+Print Assumptions inv_nonvacuous.
